@@ -56,7 +56,7 @@ Init == /\ c \in Cases \cup ShapeCases
 Grid == { x \in BlockGrid(c.accel) : S!BlockOK(c.accel, x) }
 PlaceBlock == /\ phase = "op"
               /\ \E b \in Grid : LET L == Try(c, b) IN blk' = b /\ lay' = L /\ phase' = IF L = NoLayout THEN "nofit" ELSE "fit"
-         /\ UNCHANGED c
+              /\ UNCHANGED c
 (* vacuity: some point of the lattice fits and some does not (evaluated once, at start-up) *)
 ASSUME \E x \in Cases : \E b \in BlockGrid(x.accel) : S!BlockOK(x.accel, b) /\ Try(x, b) # NoLayout
 ASSUME \E x \in Cases : \E b \in BlockGrid(x.accel) : S!BlockOK(x.accel, b) /\ Try(x, b) = NoLayout
@@ -73,6 +73,9 @@ Spec == Init /\ [][Next]_vars
 OpOf == [accel |-> c.accel, kind |-> c.kind, bits |-> c.bits, accbits |-> S!ExpectedAccBits(c.kind, c.bits, c.scaled),
          lut |-> c.lut, kah |-> c.kah, kaw |-> c.kaw, sy |-> c.sy, sx |-> c.sx, up |-> c.up, ifm_d |-> c.ifm_d,
          part |-> c.part, ofm_h |-> c.ofm_h, binary |-> (c.kind = "ew" /\ ~c.scalar), bc |-> <<FALSE, FALSE, FALSE>>, blk |-> blk]
+
+(* successor states are leaves: TLC checks the invariants on them but does not store or queue them *)
+Frontier == phase \in {"op", "shape"}
 
 (* ---- properties ---- *)
 LayoutValid == (phase \in {"fit", "queried"} /\ lay # NoLayout) =>
